@@ -47,53 +47,32 @@ def handle : List String → String
 
 /-- inputs on which `Format` changes the token stream (one per known class, see known_findings.jsonl) -/
 def tokenWitnesses : List String := [
-  "<\n<\n"  /- angle-word -/,
+  "a <<EOF"  /- angle-word -/,
   "{\n\ta # c \\\n\n}\n"  /- backslash-in-comment -/,
-  "# `\n{\n\ta\n}\n"  /- backtick-in-comment -/,
-  "\"back`tick\" {\n}\n"  /- backtick-in-dquote -/,
-  "a <<EOF\n\t`\n\tEOF\nb {\n}\n"  /- backtick-in-heredoc -/,
-  "a`b {\n}\n"  /- backtick-in-word -/,
   "{\n\ta \\\n\n}\n"  /- blank-line-after-line-continuation -/,
   " \ufeffa\n"  /- bom -/,
   "a{\nb\n"  /- brace-glued-to-word -/,
   "a {\n\tb }\n"  /- close-brace-not-first-on-line -/,
-  "a\rb\n"  /- cr-inside-word -/,
-  "a {\n"  /- dangling-open-brace-at-eof -/,
   "{\n\ta <<EOF\n\tEOF\n\n}\n"  /- empty-heredoc -/,
-  ""  /- empty-input -/,
   "\\{ 200\n"  /- escape -/,
-  "\"a\"\"b  c\"\n"  /- glued-after-quote -/,
-  "a#b \"x\n  y\"\n"  /- hash-in-word -/,
-  "{\n\\\na\n}\n"  /- line-continuation-without-token-before -/,
+  "<<EOF\n\nEOF<<EOF\n\\"  /- glued-after-quote -/,
+  "a\n\\\n}"  /- line-continuation-without-token-before -/,
   "a { b }\n"  /- multiple-risky-constructs -/,
   "a\n{\n\tb\n}\n"  /- open-brace-first-on-line -/,
-  "`a#b` \"x\n  y\"\n"  /- special-in-backquote -/,
-  "a \\\n\"b  c\"\n"  /- special-right-after-line-continuation -/,
   "a {\n} b\n"  /- token-after-close-brace-on-same-line -/,
   "a { b\n}\n"  /- token-after-open-brace-on-same-line -/,
-  "\"a b  \n"  /- unterminated-quote -/,
-  "`{ inner }`\n"  /- ws-or-brace-in-backquote -/
+  "\"a b  \n"  /- unterminated-quote -/
 ]
 
 /-- inputs on which `Format` is not idempotent (one per known class) -/
 def idemWitnesses : List String := [
-  "a< <\n<"  /- angle-word -/,
-  "#`\n\n{}"  /- backtick-in-comment -/,
-  "\"`\"\n{}"  /- backtick-in-dquote -/,
-  "<<EOF\n} `\nEOF\n {} \n"  /- backtick-in-heredoc -/,
-  "a`\n{}"  /- backtick-in-word -/,
-  "{\n{x}\u00a0\\\n\n}\nEOF"  /- blank-line-after-line-continuation -/,
-  "{\n{{"  /- brace-glued-to-word -/,
+  "\n<<EOF \n  \"a\\\\b\" <<EOF\n\t\t{\n\t\t}\n\t\tEOF\n"  /- angle-word -/,
+  "{}{"  /- brace-glued-to-word -/,
   "a {\n\\"  /- escape -/,
-  "\"\"\"\u00a0\n {{\\\nEOF\""  /- glued-after-quote -/,
-  "a#b \"a\n\tb {\n}\" \t\"tab\there\""  /- hash-in-word -/,
-  "\\\n\t\"}\""  /- line-continuation-without-token-before -/,
-  "{ {"  /- multiple-risky-constructs -/,
-  "`a#b` \"a\n\tb {\n}\"\n<<END\n  \"q\"\n  END"  /- special-in-backquote -/,
-  "EOF\\\n\"{x}# \n}}  \""  /- special-right-after-line-continuation -/,
-  "} \\\n\t\"}\""  /- token-after-close-brace-on-same-line -/,
-  "b { \\\nb"  /- token-after-open-brace-on-same-line -/,
-  "`\n{}`"  /- ws-or-brace-in-backquote -/
+  "<<EOF\n\nEOF\r<\n\n<<EOF\n{\n }"  /- glued-after-quote -/,
+  "b {\n\\\nb"  /- line-continuation-without-token-before -/,
+  "a{\\"  /- multiple-risky-constructs -/,
+  "b { \\\nb"  /- token-after-open-brace-on-same-line -/
 ]
 
 /-- the protocol lines of the counter-examples -/
